@@ -165,7 +165,8 @@ def check_rot(ctx, repo):
                   construct='%s input longitude' % f.qualname)
     cls = repo.cls(COORD, 'SDSSMuNu')
     incl = [n for n in cls.body if isinstance(n, ast.FunctionDef) and n.name == 'incl']
-    ok = bool(incl) and 'stripe_to_incl(self.stripe)' in src(incl[0]) and 'u.deg' in src(incl[0])
+    rets_i = [r for r in ast.walk(incl[0]) if isinstance(r, ast.Return)] if incl else []
+    ok = bool(incl) and 'u.deg' in src(incl[0]) and bool(rets_i) and all('stripe_to_incl(self.stripe)' in src(r) for r in rets_i)
     ctx.check('C18.NODE', ok, f1, incl[0] if incl else cls, 'SDSSMuNu.incl = Angle(stripe_to_incl(self.stripe), deg)',
               msg='SDSSMuNu.incl is not stripe_to_incl(self.stripe) in degrees', construct='incl property')
     # NOMUT
